@@ -81,6 +81,12 @@ impl SimHasherState {
     }
 }
 
+impl SimHasherState {
+    fn narrow(&mut self, v: u64, bytes: u64) {
+        self.word(mix2(v, 0x6e61_7272_6f77_0000 | bytes));
+    }
+}
+
 impl Hasher for SimHasherState {
     fn finish(&self) -> u64 {
         match self.mode {
@@ -125,13 +131,33 @@ impl Hasher for SimHasherState {
     fn write_usize(&mut self, i: usize) {
         self.word(i as u64)
     }
+    // Narrower integers are not the same input as a u64 of equal value: a real hasher consumes
+    // 1, 2 or 4 bytes for them. (The library hashes u64 keys, u64 fingerprints and usize
+    // initialisation words under this seam, so these paths are taken only if a change to the
+    // library starts hashing a narrowed value on one side of a computation.)
     #[inline]
     fn write_u32(&mut self, i: u32) {
-        self.word(i as u64)
+        if let Some(s) = self.sip.as_mut() {
+            s.write_u32(i);
+            return;
+        }
+        self.narrow(i as u64, 4)
+    }
+    #[inline]
+    fn write_u16(&mut self, i: u16) {
+        if let Some(s) = self.sip.as_mut() {
+            s.write_u16(i);
+            return;
+        }
+        self.narrow(i as u64, 2)
     }
     #[inline]
     fn write_u8(&mut self, i: u8) {
-        self.word(i as u64)
+        if let Some(s) = self.sip.as_mut() {
+            s.write_u8(i);
+            return;
+        }
+        self.narrow(i as u64, 1)
     }
 }
 
